@@ -6,7 +6,10 @@ import streams
 from checks._propcommon import dumps_of, standard_programs
 from common import sub_seed
 
-THEOREMS = ["LNN.C16_reset_restores", "LNN.C16_rerun_equal"]
+THEOREMS = ["LNN.C16_leaves_invariant",
+            "LNN.C16_reset_restores",
+            "LNN.C16_rerun_equal",
+            "LNN.C16_second_run"]
 MODULES = ["LnnVerif.Props.C16"]
 FACETS = {"bounds", "reported"}
 
